@@ -57,6 +57,43 @@ pub fn names(_ctx: &Ctx) -> Report {
             Err(_) => "none".into(),
         });
     }
+    // known limits of the token abstraction: spellings in which a peg literal / number matches a proper
+    // prefix of a word.  The real parser accepts them, the model's lexer does not split there.  Measured
+    // and reported, not compared (never printer output; see notes/C15.md).
+    let glued = [
+        "(program 1.0.0 (delayx))",
+        "(program 1.0.0 (lam x (forcex)))",
+        "(program 1.0.0 (constr 1_74))",
+        "(program 1.0.0 (constr 0x))",
+        "(program 1.0.0 (con integer 5--c\n))",
+        "(program 1.0.0 (con (listinteger) []))",
+        "(program 1.0.0 (con data(I 1)))",
+        "(program 1.0.0 (con integer--c\n 5))",
+    ];
+    {
+        // names starting with `--`: accepted by `ident()`, but a comment as soon as a new-line follows
+        let dd = Name { text: "--x".into(), unique: Unique::new(0) };
+        let p = mk_prog(Term::Lambda { parameter_name: Rc::new(dd.clone()), body: Rc::new(Term::Lambda { parameter_name: Rc::new(Name { text: "a_long_enough_name_to_force_a_line_break_in_the_output_of_the_pretty_printer_xxxxxxxxxxxxx".into(), unique: Unique::new(1) }), body: Rc::new(Term::Var(Rc::new(dd))) }) });
+        let pretty = p.to_pretty();
+        match real_parse(&pretty) {
+            Parsed::Ok(q) if alpha_wire(&q.term) == alpha_wire(&p.term) => rep.count("name-dashdash-roundtrip-ok"),
+            _ => rep.count("name-dashdash-known-limitation (name starting with `--` is read as a comment; excluded by WellFormed)"),
+        }
+    }
+    let glued_reqs: Vec<String> = glued.iter().map(|t| format!("text-parse {}", wire::hex(t.as_bytes()))).collect();
+    let glued_model = driver::run(&glued_reqs);
+    for (i, t) in glued.iter().enumerate() {
+        let real = parsed_str(&real_parse(t));
+        if real == glued_model[i] {
+            rep.count("glued-spelling-agree");
+        } else {
+            rep.count("glued-spelling-known-divergence (real accepts, token model rejects)");
+            if !(real.starts_with("ok") && glued_model[i] == "err") {
+                rep.disagree(&format!("text:glued:{i}"), &glued_reqs[i], &real, &glued_model[i]);
+            }
+        }
+    }
+
     let model = driver::run(&reqs);
     rep.evaluations = reqs.len() as u64;
     for i in 0..reqs.len() {
@@ -65,4 +102,1212 @@ pub fn names(_ctx: &Ctx) -> Report {
         }
     }
     rep
+}
+
+// =====================================================================================
+// C15 (text part): printer / parser round trip
+// =====================================================================================
+use crate::prng::Prng;
+use crate::report::guarded;
+use crate::wire;
+use num_bigint::BigInt;
+use pallas_primitives::alonzo::PlutusData;
+use std::rc::Rc;
+use uplc::ast::{Constant, Data, DeBruijn, Name, NamedDeBruijn, Program, Term, Type, Unique};
+use uplc::machine::runtime::Compressable;
+
+// ------------------------------------------------------------------ the harness's own lexer
+/// Tokens of UPLC text, rendered canonically (same format as the Lean driver's `tokensStr`):
+/// `(` `)` `[` `]` `,` `()` `_` (white space / comments) `w:<word>` `#<hex chars>` `s:#<hex of raw>`
+#[derive(Clone, Debug, PartialEq)]
+pub enum Tok {
+    LPar,
+    RPar,
+    LBrack,
+    RBrack,
+    Comma,
+    Unit,
+    Ws,
+    Word(String),
+    Hash(String),
+    Str(String), // raw text between the quotes
+}
+
+impl Tok {
+    pub fn canon(&self) -> String {
+        match self {
+            Tok::LPar => "(".into(),
+            Tok::RPar => ")".into(),
+            Tok::LBrack => "[".into(),
+            Tok::RBrack => "]".into(),
+            Tok::Comma => ",".into(),
+            Tok::Unit => "()".into(),
+            Tok::Ws => "_".into(),
+            Tok::Word(w) => format!("w:{w}"),
+            Tok::Hash(h) => format!("#{h}"),
+            Tok::Str(r) => format!("s:{}", wire::hex(r.as_bytes())),
+        }
+    }
+    pub fn render(&self) -> String {
+        match self {
+            Tok::LPar => "(".into(),
+            Tok::RPar => ")".into(),
+            Tok::LBrack => "[".into(),
+            Tok::RBrack => "]".into(),
+            Tok::Comma => ",".into(),
+            Tok::Unit => "()".into(),
+            Tok::Ws => " ".into(),
+            Tok::Word(w) => w.clone(),
+            Tok::Hash(h) => format!("#{h}"),
+            Tok::Str(r) => format!("\"{r}\""),
+        }
+    }
+    fn wordish(&self) -> bool {
+        matches!(self, Tok::Word(_) | Tok::Hash(_))
+    }
+}
+
+fn is_ident_char(c: char) -> bool {
+    c.is_ascii_alphanumeric() || c == '_' || c == '\'' || c == '~' || c == '-'
+}
+fn is_word_char(c: char) -> bool {
+    is_ident_char(c) || c == '+' || c == '.'
+}
+
+/// one `character()` of the grammar at `cs[i..]`: number of chars consumed, or None
+fn lex_character(cs: &[char], i: usize) -> Option<usize> {
+    if i >= cs.len() {
+        return None;
+    }
+    if cs[i] == '\\' {
+        if i + 1 >= cs.len() {
+            return Some(1);
+        }
+        let k = cs[i + 1];
+        if matches!(k, 'n' | 'r' | 't' | '"' | '\'' | '\\') {
+            return Some(2);
+        }
+        if k == 'x' {
+            if let Some(n1) = lex_character(cs, i + 2) {
+                if let Some(n2) = lex_character(cs, i + 2 + n1) {
+                    // both must be single plain hex digits for hex::decode to succeed
+                    if n1 == 1 && n2 == 1 && cs[i + 2].is_ascii_hexdigit() && cs[i + 3].is_ascii_hexdigit() {
+                        return Some(4);
+                    }
+                }
+            }
+        }
+        return Some(1);
+    }
+    if cs[i] == '"' {
+        return None;
+    }
+    Some(1)
+}
+
+pub fn lex(text: &str) -> Option<Vec<Tok>> {
+    let cs: Vec<char> = text.chars().collect();
+    let mut out: Vec<Tok> = vec![];
+    let mut i = 0;
+    let push_ws = |out: &mut Vec<Tok>| {
+        if out.last() != Some(&Tok::Ws) {
+            out.push(Tok::Ws)
+        }
+    };
+    while i < cs.len() {
+        let c = cs[i];
+        if c == ' ' || c == '\n' || c == '\r' || c == '\t' {
+            push_ws(&mut out);
+            i += 1;
+        } else if c == '-' && i + 1 < cs.len() && cs[i + 1] == '-' && cs[i + 2..].contains(&'\n') {
+            let nl = cs[i + 2..].iter().position(|&x| x == '\n').unwrap();
+            i = i + 2 + nl + 1;
+            push_ws(&mut out);
+        } else if c == '(' {
+            if i + 1 < cs.len() && cs[i + 1] == ')' {
+                out.push(Tok::Unit);
+                i += 2;
+            } else {
+                out.push(Tok::LPar);
+                i += 1;
+            }
+        } else if c == ')' {
+            out.push(Tok::RPar);
+            i += 1;
+        } else if c == '[' {
+            out.push(Tok::LBrack);
+            i += 1;
+        } else if c == ']' {
+            out.push(Tok::RBrack);
+            i += 1;
+        } else if c == ',' {
+            out.push(Tok::Comma);
+            i += 1;
+        } else if c == '"' {
+            let start = i + 1;
+            let mut j = start;
+            loop {
+                match lex_character(&cs, j) {
+                    Some(n) => j += n,
+                    None => break,
+                }
+            }
+            if j < cs.len() && cs[j] == '"' {
+                out.push(Tok::Str(cs[start..j].iter().collect()));
+                i = j + 1;
+            } else {
+                return None;
+            }
+        } else if c == '#' {
+            let mut j = i + 1;
+            while j < cs.len() && is_ident_char(cs[j]) {
+                j += 1;
+            }
+            out.push(Tok::Hash(cs[i + 1..j].iter().collect()));
+            i = j;
+        } else if is_word_char(c) {
+            let mut j = i;
+            while j < cs.len() && is_word_char(cs[j]) {
+                j += 1;
+            }
+            out.push(Tok::Word(cs[i..j].iter().collect()));
+            i = j;
+        } else {
+            return None;
+        }
+    }
+    Some(out)
+}
+
+pub fn canon_tokens(ts: &[Tok]) -> String {
+    ts.iter().map(|t| t.canon()).collect::<Vec<_>>().join(" ")
+}
+
+/// real tokens vs model tokens: same non-ws tokens in the same order, every `_` of the model
+/// (mandatory white space) is present in the real output, and the real output has additional white
+/// space only at soft breaks, i.e. right before a `)` (the layouts of `printProgramTokensL`)
+fn tokens_agree(real: &str, model: &str) -> bool {
+    let r: Vec<&str> = real.split(' ').filter(|s| !s.is_empty()).collect();
+    let m: Vec<&str> = model.split(' ').filter(|s| !s.is_empty()).collect();
+    let (mut i, mut j) = (0, 0);
+    while j < m.len() {
+        if i >= r.len() {
+            return false;
+        }
+        if m[j] == "_" {
+            if r[i] != "_" {
+                return false;
+            }
+            i += 1;
+            j += 1;
+        } else {
+            if r[i] == "_" {
+                if i + 1 >= r.len() || r[i + 1] != ")" {
+                    return false;
+                }
+                i += 1;
+                continue;
+            }
+            if r[i] != m[j] {
+                return false;
+            }
+            i += 1;
+            j += 1;
+        }
+    }
+    r[i..].iter().all(|t| *t == "_")
+}
+
+// ------------------------------------------------------------------ generators
+const G1_POINTS: [&str; 2] = [
+    "97f1d3a73197d7942695638c4fa9ac0fc3688c4f9774b905a14e3a3f171bac586c55e83ff97a1aeffb3af00adb22c6bb",
+    "c00000000000000000000000000000000000000000000000000000000000000000000000000000000000000000000000",
+];
+const G2_POINTS: [&str; 2] = [
+    "93e02b6052719f607dacd3a088274f65596bd0d09920b61ab5da61bbdc7f5049334cf11213945d57e5ac7d055d042b7e024aa2b2f08f0a91260805272dc51051c6e47ad4fa403b02b4510b647ae3d1770bac0326a805bbefd48056c8c121bdb8",
+    "c00000000000000000000000000000000000000000000000000000000000000000000000000000000000000000000000000000000000000000000000000000000000000000000000000000000000000000000000000000000000000000000000",
+];
+
+fn g1(i: usize) -> Constant {
+    Constant::Bls12_381G1Element(Box::new(Compressable::uncompress(&hex::decode(G1_POINTS[i % 2]).unwrap()).unwrap()))
+}
+fn g2(i: usize) -> Constant {
+    Constant::Bls12_381G2Element(Box::new(Compressable::uncompress(&hex::decode(G2_POINTS[i % 2]).unwrap()).unwrap()))
+}
+
+pub struct Gen {
+    pub rng: Prng,
+}
+
+const SPECIAL_CHARS: [u32; 40] = [
+    0x00, 0x01, 0x07, 0x08, 0x09, 0x0a, 0x0b, 0x0c, 0x0d, 0x1b, 0x1f, 0x20, 0x22, 0x27, 0x5c, 0x78, 0x30, 0x41, 0x7e, 0x7f,
+    0x80, 0x85, 0xa0, 0xe9, 0xff, 0x100, 0x7ff, 0x800, 0x2028, 0xd7ff, 0xe000, 0xfeff, 0xfffd, 0xffff, 0x10000, 0x1f600,
+    0xe0041, 0x10ffff, 0x23, 0x2d,
+];
+
+impl Gen {
+    pub fn new(seed: u64) -> Self {
+        Gen { rng: Prng::new(seed) }
+    }
+
+    pub fn char(&mut self) -> char {
+        let r = &mut self.rng;
+        let cp = match r.below(10) {
+            0..=2 => *r.pick(&SPECIAL_CHARS),
+            3..=4 => r.below(128) as u32,
+            5 => 0x80 + r.below(0x780) as u32,
+            6 => 0x800 + r.below(0xf800) as u32,
+            7 => 0x10000 + r.below(0x100000) as u32,
+            _ => 0x20 + r.below(0x5f) as u32,
+        };
+        char::from_u32(cp).unwrap_or('\u{fffd}')
+    }
+
+    pub fn string(&mut self) -> String {
+        let n = match self.rng.below(6) {
+            0 => 0,
+            1 => 1,
+            2 => 2,
+            _ => self.rng.below(12),
+        };
+        let mut s = String::new();
+        for _ in 0..n {
+            // sometimes text that looks like an escape sequence
+            if self.rng.chance(1, 12) {
+                s.push_str(*self.rng.pick(&["\\x41", "\\n", "\\\"", "\\", "\"", "\\x", "--", "\\xc3\\xa9", "\\'"]));
+            } else {
+                s.push(self.char());
+            }
+        }
+        s
+    }
+
+    pub fn bigint(&mut self) -> BigInt {
+        let r = &mut self.rng;
+        let mag: BigInt = match r.below(8) {
+            0 => BigInt::from(0),
+            1 => BigInt::from(r.below(10) as u64),
+            2 => BigInt::from(r.next()),
+            3 => BigInt::from(1u8) << (8 * (1 + r.below(12))),
+            4 => (BigInt::from(1u8) << (64 * (1 + r.below(4)))) - 1,
+            5 => {
+                let mut x = BigInt::from(r.next());
+                for _ in 0..r.below(6) {
+                    x = x * BigInt::from(r.next()) + BigInt::from(r.next());
+                }
+                x
+            }
+            6 => BigInt::from(i64::MAX) + r.below(3),
+            _ => BigInt::from(r.below(100000) as u64),
+        };
+        if self.rng.chance(1, 2) {
+            -mag
+        } else {
+            mag
+        }
+    }
+
+    pub fn bytes(&mut self) -> Vec<u8> {
+        let n = match self.rng.below(6) {
+            0 => 0,
+            1 => 1,
+            2 => 64 + self.rng.below(4),
+            _ => self.rng.below(20),
+        };
+        (0..n).map(|_| self.rng.next() as u8).collect()
+    }
+
+    pub fn constr_ix(&mut self) -> u64 {
+        let r = &mut self.rng;
+        match r.below(9) {
+            0 => 0,
+            1 => 6,
+            2 => 7,
+            3 => 127,
+            4 => 128,
+            5 => u64::MAX,
+            6 => r.below(7) as u64,
+            7 => 7 + r.below(121) as u64,
+            _ => 128 + (r.next() >> r.below(64)),
+        }
+    }
+
+    pub fn data(&mut self, depth: usize) -> PlutusData {
+        let k = if depth == 0 { 3 + self.rng.below(2) } else { self.rng.below(5) };
+        match k {
+            0 => {
+                let n = self.rng.below(4);
+                let ix = self.constr_ix();
+                Data::constr(ix, (0..n).map(|_| self.data(depth - 1)).collect())
+            }
+            1 => {
+                let n = self.rng.below(3);
+                Data::map((0..n).map(|_| (self.data(depth - 1), self.data(depth - 1))).collect())
+            }
+            2 => {
+                let n = self.rng.below(4);
+                Data::list((0..n).map(|_| self.data(depth - 1)).collect())
+            }
+            3 => Data::integer(self.bigint()),
+            _ => Data::bytestring(self.bytes()),
+        }
+    }
+
+    pub fn ty(&mut self, depth: usize) -> Type {
+        let k = if depth == 0 { self.rng.below(8) } else { self.rng.below(11) };
+        match k {
+            0 => Type::Integer,
+            1 => Type::ByteString,
+            2 => Type::String,
+            3 => Type::Unit,
+            4 => Type::Bool,
+            5 => Type::Data,
+            6 => Type::Bls12_381G1Element,
+            7 => Type::Bls12_381G2Element,
+            8 | 9 => Type::List(Rc::new(self.ty(depth - 1))),
+            _ => Type::Pair(Rc::new(self.ty(depth - 1)), Rc::new(self.ty(depth - 1))),
+        }
+    }
+
+    pub fn constant_of(&mut self, t: &Type, depth: usize) -> Constant {
+        match t {
+            Type::Integer => Constant::Integer(self.bigint()),
+            Type::ByteString => Constant::ByteString(self.bytes()),
+            Type::String => Constant::String(self.string()),
+            Type::Unit => Constant::Unit,
+            Type::Bool => Constant::Bool(self.rng.chance(1, 2)),
+            Type::Data => Constant::Data(self.data(depth.min(3))),
+            Type::Bls12_381G1Element => g1(self.rng.below(2)),
+            Type::Bls12_381G2Element => g2(self.rng.below(2)),
+            Type::Bls12_381MlResult => unreachable!(),
+            Type::List(et) => {
+                let n = if matches!(**et, Type::Bls12_381MlResult) { 0 } else { self.rng.below(4) };
+                Constant::ProtoList((**et).clone(), (0..n).map(|_| self.constant_of(et, depth.saturating_sub(1))).collect())
+            }
+            Type::Pair(a, b) => Constant::ProtoPair(
+                (**a).clone(),
+                (**b).clone(),
+                Rc::new(self.constant_of(a, depth.saturating_sub(1))),
+                Rc::new(self.constant_of(b, depth.saturating_sub(1))),
+            ),
+        }
+    }
+
+    pub fn constant(&mut self) -> Constant {
+        let d = self.rng.below(4);
+        let t = self.ty(d);
+        self.constant_of(&t, 3)
+    }
+
+    fn ident(&mut self) -> String {
+        const POOL: [&str; 14] = ["x", "y", "f", "i_0", "i_1", "con", "lam", "a-b", "x'", "~t", "_", "0", "delay", "program"];
+        if self.rng.chance(3, 4) {
+            self.rng.pick(&POOL).to_string()
+        } else {
+            const CS: &[u8] = b"abcxyzABZ019_'~-";
+            let n = 1 + self.rng.below(6);
+            let s: String = (0..n).map(|_| *self.rng.pick(CS) as char).collect();
+            // a name starting with `--` is read as a comment once a line break follows (notes/C15.md):
+            // outside `WellFormed`; measured separately under "name-dashdash"
+            if s.starts_with("--") {
+                format!("n{s}")
+            } else {
+                s
+            }
+        }
+    }
+
+    /// a term over `Name`; `consistent`: the unique is a function of the text (and vice versa)
+    pub fn term(&mut self, depth: usize, scope: &mut Vec<Name>, names: &mut Vec<Name>, consistent: bool) -> Term<Name> {
+        let k = if depth == 0 { self.rng.below(4) } else { 4 + self.rng.below(9) };
+        match k {
+            0 => {
+                if !scope.is_empty() && self.rng.chance(9, 10) {
+                    let n = self.rng.pick(scope).clone();
+                    Term::Var(Rc::new(n))
+                } else {
+                    Term::Error
+                }
+            }
+            1 => {
+                let all: Vec<DefaultFunction> = DefaultFunction::iter().collect();
+                Term::Builtin(*self.rng.pick(&all))
+            }
+            2 | 3 => Term::Constant(Rc::new(self.constant())),
+            4 | 5 | 6 => {
+                let n = self.binder(names, consistent);
+                scope.push(n.clone());
+                let body = self.term(depth - 1, scope, names, consistent);
+                scope.pop();
+                Term::Lambda { parameter_name: Rc::new(n), body: Rc::new(body) }
+            }
+            7 | 8 => Term::Apply {
+                function: Rc::new(self.term(depth - 1, scope, names, consistent)),
+                argument: Rc::new(self.term(depth - 1, scope, names, consistent)),
+            },
+            9 => Term::Delay(Rc::new(self.term(depth - 1, scope, names, consistent))),
+            10 => Term::Force(Rc::new(self.term(depth - 1, scope, names, consistent))),
+            11 => {
+                let n = self.rng.below(4);
+                let tag = match self.rng.below(4) {
+                    0 => 0,
+                    1 => usize::MAX,
+                    _ => self.rng.below(300),
+                };
+                Term::Constr { tag, fields: (0..n).map(|_| self.term(depth - 1, scope, names, consistent)).collect() }
+            }
+            _ => {
+                let n = self.rng.below(4);
+                Term::Case {
+                    constr: Rc::new(self.term(depth - 1, scope, names, consistent)),
+                    branches: (0..n).map(|_| self.term(depth - 1, scope, names, consistent)).collect(),
+                }
+            }
+        }
+    }
+
+    fn binder(&mut self, names: &mut Vec<Name>, consistent: bool) -> Name {
+        let text = self.ident();
+        if consistent {
+            if let Some(n) = names.iter().find(|n| n.text == text) {
+                return n.clone();
+            }
+            // uniques deliberately not in interning order
+            let u = 1000 - 7 * names.len() as isize;
+            let n = Name { text, unique: Unique::new(u) };
+            names.push(n.clone());
+            n
+        } else {
+            let n = Name { text, unique: Unique::new(self.rng.below(4) as isize) };
+            names.push(n.clone());
+            n
+        }
+    }
+
+    pub fn program(&mut self, consistent: bool) -> Program<Name> {
+        let d = 1 + self.rng.below(6);
+        let version = match self.rng.below(5) {
+            0 => (0, 0, 0),
+            1 => (1, 1, 0),
+            2 => (usize::MAX, 0, self.rng.below(100)),
+            _ => (1, 0, 0),
+        };
+        let mut scope = vec![];
+        let mut names = vec![];
+        Program { version, term: self.term(d, &mut scope, &mut names, consistent) }
+    }
+}
+
+
+/// the harness's own binder resolution: de Bruijn view of a named term (free variables by text)
+pub fn alpha_wire(t: &Term<Name>) -> String {
+    fn go(t: &Term<Name>, env: &mut Vec<Unique>, s: &mut String) {
+        match t {
+            Term::Var(n) => match env.iter().rev().position(|u| *u == n.unique) {
+                Some(i) => s.push_str(&format!("(v {})", i + 1)),
+                None => s.push_str(&format!("(vf {})", wire::hex(n.text.as_bytes()))),
+            },
+            Term::Lambda { parameter_name, body } => {
+                s.push_str("(l ");
+                env.push(parameter_name.unique);
+                go(body, env, s);
+                env.pop();
+                s.push(')');
+            }
+            Term::Apply { function, argument } => {
+                s.push_str("(a ");
+                go(function, env, s);
+                s.push(' ');
+                go(argument, env, s);
+                s.push(')');
+            }
+            Term::Delay(t) => {
+                s.push_str("(d ");
+                go(t, env, s);
+                s.push(')');
+            }
+            Term::Force(t) => {
+                s.push_str("(f ");
+                go(t, env, s);
+                s.push(')');
+            }
+            Term::Error => s.push('e'),
+            Term::Builtin(b) => s.push_str(&format!("(b {:?})", b)),
+            Term::Constant(c) => s.push_str(&format!("(c {})", wire::constant(c))),
+            Term::Constr { tag, fields } => {
+                s.push_str(&format!("(k {}", tag));
+                for f in fields {
+                    s.push(' ');
+                    go(f, env, s);
+                }
+                s.push(')');
+            }
+            Term::Case { constr, branches } => {
+                s.push_str("(s ");
+                go(constr, env, s);
+                for b in branches {
+                    s.push(' ');
+                    go(b, env, s);
+                }
+                s.push(')');
+            }
+        }
+    }
+    let mut s = String::new();
+    go(t, &mut vec![], &mut s);
+    s
+}
+
+fn prog_wire(p: &Program<Name>) -> String {
+    format!("{} {} {} {}", p.version.0, p.version.1, p.version.2, wire::term(&p.term))
+}
+
+fn mk_prog(term: Term<Name>) -> Program<Name> {
+    Program { version: (1, 0, 0), term }
+}
+
+fn con(c: Constant) -> Term<Name> {
+    Term::Constant(Rc::new(c))
+}
+
+/// directed cases with stable keys
+fn directed() -> Vec<(String, Program<Name>)> {
+    let mut v: Vec<(String, Program<Name>)> = vec![];
+    for b in DefaultFunction::iter() {
+        v.push((format!("builtin-{:?}", b), mk_prog(Term::Builtin(b))));
+    }
+    v.push(("g2-list".into(), mk_prog(con(Constant::ProtoList(Type::Bls12_381G2Element, vec![])))));
+    v.push(("g2-list-1".into(), mk_prog(con(Constant::ProtoList(Type::Bls12_381G2Element, vec![g2(0), g2(1)])))));
+    v.push(("g1-list-1".into(), mk_prog(con(Constant::ProtoList(Type::Bls12_381G1Element, vec![g1(0), g1(1)])))));
+    v.push(("g1".into(), mk_prog(con(g1(0)))));
+    v.push(("g2".into(), mk_prog(con(g2(0)))));
+    v.push((
+        "pair-g1-g2".into(),
+        mk_prog(con(Constant::ProtoPair(Type::Bls12_381G1Element, Type::Bls12_381G2Element, Rc::new(g1(1)), Rc::new(g2(1))))),
+    ));
+    v.push(("ml-empty-list".into(), mk_prog(con(Constant::ProtoList(Type::Bls12_381MlResult, vec![])))));
+    v.push((
+        "ml-nested-empty-list".into(),
+        mk_prog(con(Constant::ProtoList(
+            Type::List(Rc::new(Type::Bls12_381MlResult)),
+            vec![Constant::ProtoList(Type::Bls12_381MlResult, vec![])],
+        ))),
+    ));
+    v.push(("string-e9".into(), mk_prog(con(Constant::String("\u{e9}".into())))));
+    for cp in SPECIAL_CHARS.iter().copied().chain(0..128u32) {
+        if let Some(c) = char::from_u32(cp) {
+            v.push((format!("string-u{:x}", cp), mk_prog(con(Constant::String(c.to_string())))));
+        }
+    }
+    for (k, s) in [
+        ("empty", ""),
+        ("looks-escaped", "\\x41\\n\\\\"),
+        ("quotes", "\"'\"\"'"),
+        ("backslash-end", "abc\\"),
+        ("comment-like", "-- not a comment\n"),
+        ("mixed", "a\u{e9}\u{0}\u{10ffff}\"\\\t\r\nz"),
+        ("spaces", "   "),
+    ] {
+        v.push((format!("string-{k}"), mk_prog(con(Constant::String(s.into())))));
+        v.push((format!("string-list-{k}"), mk_prog(con(Constant::ProtoList(Type::String, vec![Constant::String(s.into()), Constant::String("".into())])))));
+    }
+    for (k, i) in [
+        ("0", BigInt::from(0)),
+        ("neg1", BigInt::from(-1)),
+        ("2p64", BigInt::from(1u8) << 64usize),
+        ("neg2p64", -(BigInt::from(1u8) << 64usize)),
+        ("big", BigInt::parse_bytes(b"123456789012345678901234567890123456789012345678901234567890", 10).unwrap()),
+    ] {
+        v.push((format!("int-{k}"), mk_prog(con(Constant::Integer(i.clone())))));
+        v.push((format!("data-int-{k}"), mk_prog(con(Constant::Data(Data::integer(i))))));
+    }
+    for ix in [0u64, 6, 7, 127, 128, 1000, u64::MAX] {
+        v.push((format!("data-constr-{ix}"), mk_prog(con(Constant::Data(Data::constr(ix, vec![Data::integer(1.into()), Data::bytestring(vec![0xff])]))))));
+    }
+    v.push(("data-map".into(), mk_prog(con(Constant::Data(Data::map(vec![(Data::integer(1.into()), Data::list(vec![])), (Data::bytestring(vec![]), Data::map(vec![]))]))))));
+    v.push((
+        "data-list-const".into(),
+        mk_prog(con(Constant::ProtoList(Type::Data, vec![Constant::Data(Data::constr(0, vec![])), Constant::Data(Data::list(vec![Data::integer(2.into())]))]))),
+    ));
+    v.push((
+        "nested".into(),
+        mk_prog(con(Constant::ProtoList(
+            Type::Pair(Rc::new(Type::List(Rc::new(Type::Integer))), Rc::new(Type::Pair(Rc::new(Type::Bool), Rc::new(Type::Unit)))),
+            vec![Constant::ProtoPair(
+                Type::List(Rc::new(Type::Integer)),
+                Type::Pair(Rc::new(Type::Bool), Rc::new(Type::Unit)),
+                Rc::new(Constant::ProtoList(Type::Integer, vec![Constant::Integer(1.into()), Constant::Integer((-2).into())])),
+                Rc::new(Constant::ProtoPair(Type::Bool, Type::Unit, Rc::new(Constant::Bool(true)), Rc::new(Constant::Unit))),
+            )],
+        ))),
+    ));
+    v.push(("bytes-empty".into(), mk_prog(con(Constant::ByteString(vec![])))));
+    v.push(("bytes".into(), mk_prog(con(Constant::ByteString(vec![0, 1, 0xab, 0xff])))));
+    v.push(("unit".into(), mk_prog(con(Constant::Unit))));
+    v.push(("bool".into(), mk_prog(con(Constant::Bool(false)))));
+    let x = Name { text: "x".into(), unique: Unique::new(0) };
+    let y = Name { text: "y".into(), unique: Unique::new(1) };
+    let var = |n: &Name| Term::Var(Rc::new(n.clone()));
+    let lam = |n: &Name, b: Term<Name>| Term::Lambda { parameter_name: Rc::new(n.clone()), body: Rc::new(b) };
+    v.push(("constr-empty".into(), mk_prog(Term::Constr { tag: 0, fields: vec![] })));
+    v.push(("constr-max".into(), mk_prog(Term::Constr { tag: usize::MAX, fields: vec![Term::Error, con(Constant::Unit)] })));
+    v.push((
+        "case".into(),
+        mk_prog(Term::Case { constr: Rc::new(Term::Constr { tag: 1, fields: vec![con(Constant::Integer(1.into()))] }), branches: vec![Term::Error, lam(&x, var(&x))] }),
+    ));
+    v.push(("case-empty".into(), mk_prog(Term::Case { constr: Rc::new(Term::Error), branches: vec![] })));
+    v.push(("shadow".into(), mk_prog(lam(&x, lam(&y, lam(&x, Term::Apply { function: Rc::new(var(&x)), argument: Rc::new(var(&y)) }))))));
+    v.push(("version".into(), Program { version: (usize::MAX, 18, 0), term: Term::Error }));
+    v.push((
+        "force-delay".into(),
+        mk_prog(Term::Force(Rc::new(Term::Delay(Rc::new(Term::Apply { function: Rc::new(Term::Builtin(DefaultFunction::IfThenElse)), argument: Rc::new(con(Constant::Bool(true))) }))))),
+    ));
+    v
+}
+
+#[derive(PartialEq)]
+enum Parsed {
+    Ok(Program<Name>),
+    Err,
+    Panic(String),
+}
+
+fn real_parse(text: &str) -> Parsed {
+    let t = text.to_string();
+    match guarded(move || uplc::parser::program(&t)) {
+        Ok(Ok(p)) => Parsed::Ok(p),
+        Ok(Err(_)) => Parsed::Err,
+        Err(m) => Parsed::Panic(m),
+    }
+}
+
+fn parsed_str(p: &Parsed) -> String {
+    match p {
+        Parsed::Ok(p) => format!("ok {}", prog_wire(p)),
+        Parsed::Err => "err".into(),
+        Parsed::Panic(_) => "panic".into(),
+    }
+}
+
+/// random layout: white space / comments between tokens (never gluing two word-like tokens,
+/// never starting a comment right after a word-like token)
+fn render_layout(ts: &[Tok], rng: &mut Prng, minimal: bool) -> String {
+    let mut s = String::new();
+    let mut prev: Option<&Tok> = None;
+    for t in ts {
+        if *t == Tok::Ws {
+            let mut gap = String::new();
+            let n = if minimal { 1 } else { 1 + rng.below(3) };
+            for k in 0..n {
+                match rng.below(8) {
+                    0 => gap.push('\n'),
+                    1 => gap.push('\t'),
+                    2 => gap.push_str("\r\n"),
+                    3 if !(k == 0 && prev.map_or(false, |p| p.wordish())) => gap.push_str("-- c \"(\n"),
+                    _ => gap.push(' '),
+                }
+            }
+            s.push_str(&gap);
+        } else {
+            if let Some(p) = prev {
+                if p.wordish() && (t.wordish()) {
+                    s.push(' ');
+                } else if !minimal && *p != Tok::Ws && rng.chance(1, 4) && !(matches!(p, Tok::LPar) && matches!(t, Tok::RPar)) {
+                    // optional white space where the printer puts none
+                    s.push_str(if rng.chance(1, 2) { " " } else { "\n  " });
+                }
+            }
+            s.push_str(&t.render());
+        }
+        prev = Some(t);
+    }
+    s
+}
+
+const WORDS: [&str; 30] = [
+    "program", "lam", "delay", "force", "error", "builtin", "con", "constr", "case", "integer", "bytestring", "string", "unit", "bool",
+    "data", "list", "pair", "bls12_381_G1_element", "bls12_381_G2_element", "bls12_381_mlresult", "True", "False", "Constr", "Map",
+    "List", "I", "B", "fooBar", "verifySignature", "addInteger",
+];
+
+fn mutate_tokens(ts: &[Tok], rng: &mut Prng) -> (Vec<Tok>, &'static str) {
+    let mut v: Vec<Tok> = ts.to_vec();
+    if v.is_empty() {
+        return (v, "none");
+    }
+    let i = rng.below(v.len());
+    match rng.below(12) {
+        0 => {
+            v.remove(i);
+            (v, "delete")
+        }
+        1 => {
+            let t = v[i].clone();
+            v.insert(i, t);
+            (v, "duplicate")
+        }
+        2 => {
+            if i + 1 < v.len() {
+                v.swap(i, i + 1);
+            }
+            (v, "swap")
+        }
+        3 => {
+            v.truncate(i);
+            (v, "truncate")
+        }
+        4 | 5 => {
+            // replace some word by another keyword / name
+            let idx: Vec<usize> = (0..v.len()).filter(|&k| matches!(v[k], Tok::Word(_))).collect();
+            if let Some(&k) = idx.get(rng.below(idx.len().max(1))) {
+                v[k] = Tok::Word(rng.pick(&WORDS).to_string());
+            }
+            (v, "word")
+        }
+        6 => {
+            // numbers: sign games and junk
+            let idx: Vec<usize> = (0..v.len()).filter(|&k| matches!(&v[k], Tok::Word(w) if w.chars().last().map_or(false, |c| c.is_ascii_digit()))).collect();
+            if let Some(&k) = idx.get(rng.below(idx.len().max(1))) {
+                if let Tok::Word(w) = &v[k] {
+                    let pre = *rng.pick(&["-", "+", "--", "+-", "-+", "++", "0", "00", "1.", ".", "18446744073709551616", "1_", "-0"]);
+                    v[k] = Tok::Word(format!("{pre}{w}"));
+                }
+            }
+            (v, "number")
+        }
+        7 | 8 => {
+            // string contents
+            let idx: Vec<usize> = (0..v.len()).filter(|&k| matches!(v[k], Tok::Str(_))).collect();
+            if let Some(&k) = idx.get(rng.below(idx.len().max(1))) {
+                if let Tok::Str(raw) = &v[k] {
+                    let mut cs: Vec<char> = raw.chars().collect();
+                    let pos = rng.below(cs.len() + 1);
+                    let ins = *rng.pick(&["\\", "\\x", "\\xg1", "\\x4", "\\x41", "\\xC3", "\\q", "\\\\", "\\'", "\u{e9}", "\n", "\\x\\n1", "\\x\\x4141", "\\u{41}"]);
+                    for (o, c) in ins.chars().enumerate() {
+                        cs.insert(pos + o, c);
+                    }
+                    // keep it one literal: an unescaped quote would end it, which is a different mutation
+                    v[k] = Tok::Str(cs.into_iter().collect());
+                }
+            }
+            (v, "string")
+        }
+        9 => {
+            // hex payloads
+            let idx: Vec<usize> = (0..v.len()).filter(|&k| matches!(v[k], Tok::Hash(_))).collect();
+            if let Some(&k) = idx.get(rng.below(idx.len().max(1))) {
+                if let Tok::Hash(h) = &v[k] {
+                    let suf = *rng.pick(&["0", "g", "AB", "_", "zz", "'"]);
+                    v[k] = Tok::Hash(format!("{h}{suf}"));
+                }
+            }
+            (v, "hex")
+        }
+        10 => {
+            let t = rng.pick(&[Tok::LPar, Tok::RPar, Tok::LBrack, Tok::RBrack, Tok::Comma, Tok::Unit, Tok::Ws]).clone();
+            v.insert(i, t);
+            (v, "insert-punct")
+        }
+        _ => {
+            // drop a white-space token (where the grammar may require it)
+            let idx: Vec<usize> = (0..v.len()).filter(|&k| v[k] == Tok::Ws).collect();
+            if let Some(&k) = idx.get(rng.below(idx.len().max(1))) {
+                v.remove(k);
+            }
+            (v, "drop-ws")
+        }
+    }
+}
+
+fn has_bls_word(ts: &[Tok]) -> bool {
+    ts.iter().any(|t| matches!(t, Tok::Word(w) if w.starts_with("0x")))
+}
+
+pub fn text(ctx: &Ctx) -> Report {
+    let mut rep = Report::new(
+        "c15-text",
+        "programs over every builtin / constant type / nesting / string class / data tag range: (a) real to_pretty tokenised by the \
+         harness lexer vs model printer tokens, (b) real parser vs model parser on printer output, on re-laid-out text and on \
+         token-mutated text, (c) property on the real code alone: parse(pretty(p)) alpha-equal to p, pretty(parse(pretty(p))) == pretty(p), \
+         CLI conversions. Non-trivial = distinct program wire / distinct mutated text",
+    );
+    let n = crate::arg_usize("--n", if ctx.thorough { 20000 } else { 1500 });
+    let mut g = Gen::new(ctx.seed);
+    let mut cases: Vec<(String, Program<Name>, bool)> = directed().into_iter().map(|(k, p)| (k, p, true)).collect();
+    for i in 0..n {
+        let consistent = i % 5 != 4;
+        let p = g.program(consistent);
+        cases.push((format!("rand-{}-{}", ctx.seed, i), p, consistent));
+    }
+
+    let mut reqs: Vec<String> = vec![];
+    let mut expect: Vec<(String, String)> = vec![]; // (key, real) ; compare mode by request prefix
+    let mut corpus_texts: Vec<(String, String)> = vec![];
+    let root = std::env::var("VERIF_ROOT").unwrap_or_else(|_| "/verif".into());
+    if let Ok(rd) = std::fs::read_dir(format!("{root}/corpus/C15")) {
+        let mut files: Vec<_> = rd.filter_map(|e| e.ok()).map(|e| e.path()).filter(|p| p.extension().map_or(false, |x| x == "uplc")).collect();
+        files.sort();
+        for f in files {
+            if let Ok(t) = std::fs::read_to_string(&f) {
+                corpus_texts.push((f.file_stem().unwrap().to_string_lossy().to_string(), t));
+            }
+        }
+    }
+    let mut token_cmp: Vec<bool> = vec![];
+    let push = |reqs: &mut Vec<String>, expect: &mut Vec<(String, String)>, token_cmp: &mut Vec<bool>, key: String, req: String, real: String, tok: bool| {
+        reqs.push(req);
+        expect.push((key, real));
+        token_cmp.push(tok);
+    };
+    let mut mrng = Prng::new(ctx.seed ^ 0x5eed);
+
+    for (key, p, consistent) in &cases {
+        let pw = prog_wire(p);
+        rep.nontrivial.insert(pw.clone());
+        rep.count(if *consistent { "programs-consistent-names" } else { "programs-inconsistent-names" });
+        classify(&p.term, &mut rep);
+        // --- (a) printer
+        let pc = p.clone();
+        let pretty = match guarded(move || pc.to_pretty()) {
+            Ok(s) => s,
+            Err(m) => {
+                rep.fail(&format!("text:print-panic:{key}"), "to_pretty panics", json!({"program": pw}), json!({"panic": m}));
+                continue;
+            }
+        };
+        if pretty.lines().any(|l| !l.is_empty() && l.trim().is_empty()) {
+            rep.fail(&format!("text:layout:{key}"), "whitespace-only line survived", json!({"program": pw}), json!({"text": pretty}));
+        }
+        let real_tokens = match lex(&pretty) {
+            Some(t) => t,
+            None => {
+                rep.fail(&format!("text:lex:{key}"), "printer output does not tokenise", json!({"program": pw}), json!({"text": pretty}));
+                continue;
+            }
+        };
+        if real_tokens.iter().any(|t| matches!(t, Tok::Str(r) if r.contains('\n'))) {
+            rep.fail(&format!("text:layout:{key}"), "a string token contains a raw new-line", json!({"program": pw}), json!({"text": pretty}));
+        }
+        push(&mut reqs, &mut expect, &mut token_cmp, format!("text:print:{key}"), format!("text-print name {}", pw), format!("ok {}", canon_tokens(&real_tokens)), true);
+        rep.sample(json!({"program": pw, "pretty": pretty}));
+        // --- (b) parser on printer output
+        let parsed = real_parse(&pretty);
+        push(&mut reqs, &mut expect, &mut token_cmp, format!("text:parse:{key}"), format!("text-parse {}", wire::hex(pretty.as_bytes())), parsed_str(&parsed), false);
+        // --- (c) property on the real code
+        match &parsed {
+            Parsed::Ok(q) => {
+                let same = q.version == p.version && alpha_wire(&q.term) == alpha_wire(&p.term);
+                if !same {
+                    if *consistent {
+                        rep.fail(
+                            &format!("text:roundtrip:{key}"),
+                            "parse(pretty(p)) differs from p",
+                            json!({"program": pw, "pretty": pretty}),
+                            json!({"expected": alpha_wire(&p.term), "parsed": alpha_wire(&q.term)}),
+                        );
+                    } else {
+                        rep.count("inconsistent-names-not-alpha-equal (hypothesis NamesConsistent is needed)");
+                    }
+                } else {
+                    rep.count("roundtrip-ok");
+                }
+                let qc = q.clone();
+                match guarded(move || qc.to_pretty()) {
+                    Ok(again) if again == pretty => rep.count("print-parse-fixpoint-ok"),
+                    other => rep.fail(
+                        &format!("text:fixpoint:{key}"),
+                        "pretty(parse(pretty(p))) != pretty(p)",
+                        json!({"program": pw, "pretty": pretty}),
+                        json!({"again": format!("{:?}", other)}),
+                    ),
+                }
+            }
+            Parsed::Err => rep.fail(&format!("text:roundtrip:{key}"), "parser rejects printer output", json!({"program": pw, "pretty": pretty}), json!({})),
+            Parsed::Panic(m) => rep.fail(&format!("text:roundtrip:{key}"), "parser panics on printer output", json!({"program": pw, "pretty": pretty}), json!({"panic": m})),
+        }
+        // --- CLI conversions (aiken uplc decode / dump_uplc): DeBruijn -> Name -> text -> parse
+        if *consistent {
+            if let Ok(Ok(db)) = guarded({
+                let pc = p.clone();
+                move || Program::<DeBruijn>::try_from(pc)
+            }) {
+                let dbw = format!("{} {} {} {}", db.version.0, db.version.1, db.version.2, wire::term(&db.term));
+                let dbc = db.clone();
+                if let Ok(s) = guarded(move || dbc.to_pretty()) {
+                    if let Some(ts) = lex(&s) {
+                        push(&mut reqs, &mut expect, &mut token_cmp, format!("text:print-db:{key}"), format!("text-print db {}", dbw), format!("ok {}", canon_tokens(&ts)), true);
+                    }
+                }
+                let via: Result<Result<Program<Name>, _>, _> = guarded({
+                    let dbc = db.clone();
+                    move || Program::<Name>::try_from(dbc)
+                });
+                if let Ok(Ok(named)) = via {
+                    let nc = named.clone();
+                    match guarded(move || nc.to_pretty()) {
+                        Ok(s) => match real_parse(&s) {
+                            Parsed::Ok(q) if alpha_wire(&q.term) == alpha_wire(&named.term) && alpha_wire(&q.term) == alpha_wire(&p.term) => rep.count("cli-decode-path-ok"),
+                            other => rep.fail(
+                                &format!("text:cli-decode:{key}"),
+                                "decode path (DeBruijn -> Name -> text -> parse) does not give back the program",
+                                json!({"program": dbw, "pretty": s}),
+                                json!({"parsed": parsed_str(&other)}),
+                            ),
+                        },
+                        Err(m) => rep.fail(&format!("text:cli-decode:{key}"), "to_pretty panics", json!({"program": dbw}), json!({"panic": m})),
+                    }
+                }
+                let ndb: Program<NamedDeBruijn> = db.clone().into();
+                let ndw = format!("{} {} {} {}", ndb.version.0, ndb.version.1, ndb.version.2, wire::term(&ndb.term));
+                let nc = ndb.clone();
+                if let Ok(s) = guarded(move || nc.to_pretty()) {
+                    if let Some(ts) = lex(&s) {
+                        push(&mut reqs, &mut expect, &mut token_cmp, format!("text:print-ndb:{key}"), format!("text-print ndb {}", ndw), format!("ok {}", canon_tokens(&ts)), true);
+                    }
+                }
+            } else {
+                rep.count("open-term (no de Bruijn form)");
+            }
+        }
+        // --- re-laid-out and mutated text through both parsers
+        let model_like: Vec<Tok> = real_tokens.clone();
+        let rounds = if ctx.thorough { 3 } else { 2 };
+        for r in 0..rounds {
+            let (toks, kind) = if r == 0 { (model_like.clone(), "layout") } else { mutate_tokens(&model_like, &mut mrng) };
+            if kind == "hex" && has_bls_word(&toks) {
+                continue;
+            }
+            let minimal = r != 0 && mrng.chance(1, 2);
+            let text = render_layout(&toks, &mut mrng, minimal);
+            if !rep.nontrivial.insert(format!("T{}", text)) {
+                continue;
+            }
+            let parsed = real_parse(&text);
+            rep.count(&format!("mutation-{kind}-{}", match &parsed { Parsed::Ok(_) => "accepted", Parsed::Err => "rejected", Parsed::Panic(_) => "panic" }));
+            if let Parsed::Panic(m) = &parsed {
+                rep.fail(&format!("text:parse-panic:{}", short_key(&text)), "uplc::parser::program panics", json!({"text": text}), json!({"panic": m}));
+            }
+            if r == 0 {
+                // layout must not matter
+                if let (Parsed::Ok(q), true) = (&parsed, true) {
+                    if let Parsed::Ok(q0) = real_parse(&pretty) {
+                        if prog_wire(q) != prog_wire(&q0) {
+                            rep.fail(&format!("text:layout-matters:{key}"), "re-laid-out text parses differently", json!({"text": text}), json!({}));
+                        }
+                    }
+                } else if matches!(real_parse(&pretty), Parsed::Ok(_)) {
+                    rep.fail(&format!("text:layout-matters:{key}"), "re-laid-out printer output is rejected", json!({"text": text, "pretty": pretty}), json!({}));
+                }
+            }
+            push(&mut reqs, &mut expect, &mut token_cmp, format!("text:parse-mut:{}", short_key(&text)), format!("text-parse {}", wire::hex(text.as_bytes())), parsed_str(&parsed), false);
+        }
+    }
+
+    // corpus of past failures (texts): both parsers, then the round trip of what was parsed
+    for (name, text) in &corpus_texts {
+        rep.count("corpus-texts");
+        let parsed = real_parse(text);
+        if let Parsed::Panic(m) = &parsed {
+            rep.fail(&format!("text:parse-panic:corpus-{name}"), "uplc::parser::program panics", json!({"text": text}), json!({"panic": m}));
+        }
+        push(&mut reqs, &mut expect, &mut token_cmp, format!("text:parse:corpus-{name}"), format!("text-parse {}", wire::hex(text.as_bytes())), parsed_str(&parsed), false);
+        if let Parsed::Ok(p) = parsed {
+            let pc = p.clone();
+            match guarded(move || pc.to_pretty()) {
+                Ok(s) => match real_parse(&s) {
+                    Parsed::Ok(q) if q.version == p.version && alpha_wire(&q.term) == alpha_wire(&p.term) => rep.count("corpus-roundtrip-ok"),
+                    other => rep.fail(
+                        &format!("text:roundtrip:corpus-{name}"),
+                        "parse(pretty(p)) differs from p",
+                        json!({"program": prog_wire(&p), "pretty": s}),
+                        json!({"parsed": parsed_str(&other)}),
+                    ),
+                },
+                Err(m) => rep.fail(&format!("text:print-panic:corpus-{name}"), "to_pretty panics", json!({"text": text}), json!({"panic": m})),
+            }
+        }
+    }
+
+    // known limits of the token abstraction: spellings in which a peg literal / number matches a proper
+    // prefix of a word.  The real parser accepts them, the model's lexer does not split there.  Measured
+    // and reported, not compared (never printer output; see notes/C15.md).
+    let glued = [
+        "(program 1.0.0 (delayx))",
+        "(program 1.0.0 (lam x (forcex)))",
+        "(program 1.0.0 (constr 1_74))",
+        "(program 1.0.0 (constr 0x))",
+        "(program 1.0.0 (con integer 5--c\n))",
+        "(program 1.0.0 (con (listinteger) []))",
+        "(program 1.0.0 (con data(I 1)))",
+        "(program 1.0.0 (con integer--c\n 5))",
+    ];
+    {
+        // names starting with `--`: accepted by `ident()`, but a comment as soon as a new-line follows
+        let dd = Name { text: "--x".into(), unique: Unique::new(0) };
+        let p = mk_prog(Term::Lambda { parameter_name: Rc::new(dd.clone()), body: Rc::new(Term::Lambda { parameter_name: Rc::new(Name { text: "a_long_enough_name_to_force_a_line_break_in_the_output_of_the_pretty_printer_xxxxxxxxxxxxx".into(), unique: Unique::new(1) }), body: Rc::new(Term::Var(Rc::new(dd))) }) });
+        let pretty = p.to_pretty();
+        match real_parse(&pretty) {
+            Parsed::Ok(q) if alpha_wire(&q.term) == alpha_wire(&p.term) => rep.count("name-dashdash-roundtrip-ok"),
+            _ => rep.count("name-dashdash-known-limitation (name starting with `--` is read as a comment; excluded by WellFormed)"),
+        }
+    }
+    let glued_reqs: Vec<String> = glued.iter().map(|t| format!("text-parse {}", wire::hex(t.as_bytes()))).collect();
+    let glued_model = driver::run(&glued_reqs);
+    for (i, t) in glued.iter().enumerate() {
+        let real = parsed_str(&real_parse(t));
+        if real == glued_model[i] {
+            rep.count("glued-spelling-agree");
+        } else {
+            rep.count("glued-spelling-known-divergence (real accepts, token model rejects)");
+            if !(real.starts_with("ok") && glued_model[i] == "err") {
+                rep.disagree(&format!("text:glued:{i}"), &glued_reqs[i], &real, &glued_model[i]);
+            }
+        }
+    }
+
+    let model = driver::run(&reqs);
+    rep.evaluations = reqs.len() as u64;
+    for i in 0..reqs.len() {
+        let (key, real) = &expect[i];
+        let ok = if token_cmp[i] {
+            model[i].starts_with("ok ") && real.starts_with("ok ") && tokens_agree(&real[3..], &model[i][3..])
+        } else {
+            model[i] == *real
+        };
+        if !ok {
+            rep.disagree(key, &truncate(&reqs[i], 4000), &truncate(real, 4000), &truncate(&model[i], 4000));
+        }
+    }
+    rep
+}
+
+fn truncate(s: &str, n: usize) -> String {
+    if s.len() <= n {
+        s.to_string()
+    } else {
+        let mut k = n;
+        while !s.is_char_boundary(k) {
+            k -= 1;
+        }
+        format!("{}…", &s[..k])
+    }
+}
+
+pub fn short_key(text: &str) -> String {
+    // stable FNV-1a of the text
+    let mut h: u64 = 0xcbf29ce484222325;
+    for b in text.as_bytes() {
+        h ^= *b as u64;
+        h = h.wrapping_mul(0x100000001b3);
+    }
+    format!("{:016x}", h)
+}
+
+fn classify(t: &Term<Name>, rep: &mut Report) {
+    match t {
+        Term::Var(_) => rep.count("term-var"),
+        Term::Lambda { body, .. } => {
+            rep.count("term-lam");
+            classify(body, rep)
+        }
+        Term::Apply { function, argument } => {
+            rep.count("term-apply");
+            classify(function, rep);
+            classify(argument, rep)
+        }
+        Term::Delay(t) => {
+            rep.count("term-delay");
+            classify(t, rep)
+        }
+        Term::Force(t) => {
+            rep.count("term-force");
+            classify(t, rep)
+        }
+        Term::Error => rep.count("term-error"),
+        Term::Builtin(_) => rep.count("term-builtin"),
+        Term::Constant(c) => {
+            rep.count("term-constant");
+            classify_const(c, rep)
+        }
+        Term::Constr { fields, .. } => {
+            rep.count("term-constr");
+            for f in fields {
+                classify(f, rep)
+            }
+        }
+        Term::Case { constr, branches } => {
+            rep.count("term-case");
+            classify(constr, rep);
+            for b in branches {
+                classify(b, rep)
+            }
+        }
+    }
+}
+
+fn classify_const(c: &Constant, rep: &mut Report) {
+    match c {
+        Constant::Integer(_) => rep.count("const-integer"),
+        Constant::ByteString(_) => rep.count("const-bytestring"),
+        Constant::String(s) => {
+            rep.count("const-string");
+            if s.chars().any(|c| (c as u32) >= 0x80) {
+                rep.count("const-string-non-ascii");
+            }
+            if s.chars().any(|c| (c as u32) < 0x20 || c == '"' || c == '\\') {
+                rep.count("const-string-needs-escape");
+            }
+        }
+        Constant::Unit => rep.count("const-unit"),
+        Constant::Bool(_) => rep.count("const-bool"),
+        Constant::ProtoList(_, xs) => {
+            rep.count("const-list");
+            for x in xs {
+                classify_const(x, rep)
+            }
+        }
+        Constant::ProtoPair(_, _, a, b) => {
+            rep.count("const-pair");
+            classify_const(a, rep);
+            classify_const(b, rep)
+        }
+        Constant::Data(d) => {
+            rep.count("const-data");
+            classify_data(d, rep)
+        }
+        Constant::Bls12_381G1Element(_) => rep.count("const-g1"),
+        Constant::Bls12_381G2Element(_) => rep.count("const-g2"),
+        Constant::Bls12_381MlResult(_) => rep.count("const-ml"),
+    }
+}
+
+fn classify_data(d: &PlutusData, rep: &mut Report) {
+    match d {
+        PlutusData::Constr(c) => {
+            match wire::constr_index(c.tag, c.any_constructor) {
+                Some(0..=6) => rep.count("data-constr-tag-0..6"),
+                Some(7..=127) => rep.count("data-constr-tag-7..127"),
+                Some(_) => rep.count("data-constr-tag-128.."),
+                None => rep.count("data-constr-tag-none"),
+            }
+            for f in c.fields.iter() {
+                classify_data(f, rep)
+            }
+        }
+        PlutusData::Map(m) => {
+            rep.count("data-map");
+            for (k, v) in m.iter() {
+                classify_data(k, rep);
+                classify_data(v, rep)
+            }
+        }
+        PlutusData::Array(a) => {
+            rep.count("data-list");
+            for x in a.iter() {
+                classify_data(x, rep)
+            }
+        }
+        PlutusData::BigInt(_) => rep.count("data-int"),
+        PlutusData::BoundedBytes(_) => rep.count("data-bytes"),
+    }
 }
